@@ -1,6 +1,7 @@
 import KoordVerif.Common.Proto
 import KoordVerif.Model.C05
 import KoordVerif.Model.C05Prof
+import KoordVerif.Model.C05Sel
 /-
 Driver for C05.  One case = one history against one reservation cache (harness "cache") or a list of
 independent owner-matching questions (harness "match").  Integer tokens only.
@@ -34,6 +35,10 @@ independent owner-matching questions (harness "match").  Integer tokens only.
   fit ru q0 q1 q2 p0 p1 p2 prePods  -> `fit pods f0 f1 f2` | `fit none`
   nom ru                            -> `nom 0|1` | `nom none`
   own perr k (obj ctrl lbl)*        -> `own 0|1`                                   (MatchOwners)
+  sel nP (key val)*nP nL (key val)*nL nE (key op nV val*nV)*nE  -> `sel parsed matched`
+                                    one owner label selector (Model/C05Sel.lean): pod labels, matchLabels, matchExpressions
+                                    (op 0 In, 1 NotIn, 2 Exists, 3 DoesNotExist, other = unknown operator);
+                                    parsed = ParseReservationOwnerMatchers succeeded, matched = the matcher accepts the pod
   harness "profiles" (Model/C05Prof.lean): P caches, one per scheduler profile
   mnew P
   madd kind valid <robj> k role*                 informer Add delivered in the order role* (0 = global handler, i = profile i)
@@ -117,6 +122,33 @@ def parseOwners : Nat → List Int → Option (List OwnerEval)
   | _, _ => none
 
 def parsePods (l : List Int) : Option (List Pod) := (chunks 5 l).mapM parsePod
+
+def parsePairs : Nat → List Int → Option (Labels × List Int)
+  | 0, rest => some ([], rest)
+  | k+1, a :: b :: rest => (parsePairs k rest).map (fun (t, r) => ((a.toNat, b.toNat) :: t, r))
+  | _, _ => none
+
+def parseExprs : Nat → List Int → Option (List SelExpr × List Int)
+  | 0, rest => some ([], rest)
+  | k+1, key :: op :: nv :: rest =>
+    if nv < 0 || rest.length < nv.toNat then none
+    else (parseExprs k (rest.drop nv.toNat)).map (fun (t, r) =>
+      ({ key := key.toNat, op := op.toNat, vals := (rest.take nv.toNat).map Int.toNat } :: t, r))
+  | _, _ => none
+
+/-- `sel`: pod labels, matchLabels, matchExpressions -/
+def parseSel : List Int → Option (Labels × LabelSel)
+  | np :: rest =>
+    match parsePairs np.toNat rest with
+    | some (pod, nl :: rest2) =>
+      match parsePairs nl.toNat rest2 with
+      | some (lbls, ne :: rest3) =>
+        match parseExprs ne.toNat rest3 with
+        | some (es, []) => some (pod, { labels := lbls, exprs := es })
+        | _ => none
+      | _ => none
+    | _ => none
+  | _ => none
 
 def parseCands : Nat → List Int → Option (List CandIn)
   | 0, [] => some []
@@ -296,6 +328,13 @@ def stepLine (c : Cache) (line : String) : Cache × List String :=
       | some ms => (c, [s!"own {b2i (matchOwners (pe != 0) ms)}"])
       | none => bad
     | _ => bad
+  | "sel" :: rest =>
+    match (ints? rest).bind parseSel with
+    | some (pod, s) =>
+      match parseOwnerSelectors [some s] with
+      | some [p] => (c, [s!"sel 1 {b2i (ownerLabelsMatch p pod)}"])
+      | _ => (c, ["sel 0 0"])
+    | none => bad
   | "chk" :: rest =>
     match ints? rest with
     | some (ig :: pe :: hn :: nm :: ex :: us :: tol :: tb :: af :: k :: vals) =>
